@@ -186,8 +186,16 @@ class Model:
         everything = self.elements + self.spares
         for i, j, link in spec.get('pre_links', []):
             declare(everything[i], everything[j], link)
-        for i, link in enumerate(spec['links']):
-            declare(self.elements[i], self.elements[i + 1], link)
+        # the order in which the user declares the chain's relations is free: 'reverse', 'matings-first', 'joints-first'
+        order = list(range(len(spec['links'])))
+        how = spec.get('declare_order')
+        if how == 'reverse':
+            order.reverse()
+        elif how in ('matings-first', 'joints-first'):
+            first = [i for i in order if (spec['links'][i]['t'] != 'J') == (how == 'matings-first')]
+            order = first + [i for i in order if i not in first]
+        for i in order:
+            declare(self.elements[i], self.elements[i + 1], spec['links'][i])
         self.load_calls = []
         self.rule_calls = []
         self.max_instants = 200000        # watchdog: the load callback aborts a runaway time loop
